@@ -95,6 +95,8 @@ func checkHandListStart(c *Ctx, rule string) {
 			role[pr.Name()] = "sb"
 		case a.IsCall("SeatManager.CurrentBBSeatID") || a.IsField("TableState", "CurrentBBSeat"):
 			role[pr.Name()] = "bb"
+		case a.IsField("TableMeta", "Rule"):
+			role[pr.Name()] = "rule"
 		case a.IsField("TableMeta", "TableMaxSeatCount"):
 			role[pr.Name()] = "n"
 		case a.IsField("TableState", "SeatMap"):
@@ -107,7 +109,7 @@ func checkHandListStart(c *Ctx, rule string) {
 	for _, r := range role {
 		have[r] = true
 	}
-	for _, r := range []string{"dealer", "sb", "bb", "n", "seatmap", "players"} {
+	for _, r := range []string{"rule", "dealer", "sb", "bb", "n", "seatmap", "players"} {
 		if !have[r] {
 			c.Bad(rule, "hand-list-start:roles", p.InstrPos(site), "the list builder is not given the "+r+" (seat manager's seats, seat count, seat map and player list of the table it builds for)")
 			return
@@ -210,7 +212,7 @@ func checkHandListStart(c *Ctx, rule string) {
 		gs := p.Guards(ci)
 		short := cmpHolds(gs, func(l, r *Sym, op token.Token) bool {
 			s, _ := r.ConstString()
-			return op == token.EQL && s == "short_deck"
+			return op == token.EQL && s == "short_deck" && roleOf(l) == "rule"
 		})
 		// (1) emptiness test excludes exactly the unset value
 		okEmpty := cmpHolds(gs, func(l, r *Sym, op token.Token) bool {
